@@ -20,6 +20,7 @@ type Rig struct {
 	Group    int
 	Unstable bool
 	Calls    int
+	Conn     *Conn // non-nil: requests go through the XDR/RPC transport
 }
 
 var nextGroup = 100
@@ -83,6 +84,9 @@ func sattr(in *In) nfstypes.Sattr3 {
 // Call performs one RPC by calling the handler directly (the RPC loop and the
 // XDR codec are exercised by the transport mode).
 func (r *Rig) Call(in *In) *Out {
+	if r.Conn != nil {
+		return r.Conn.CallRPC(in)
+	}
 	out := &Out{}
 	killed := simrt.Scope(r.Group, func() { r.call(in, out) })
 	if killed {
@@ -218,6 +222,7 @@ func (r *Rig) call(in *In, out *Out) {
 		out.Status = uint32(rep.Status)
 		out.Lim.MaxFileSize = uint64(rep.Resok.Maxfilesize)
 		out.Lim.WtMax = uint64(rep.Resok.Wtmax)
+		out.Lim.RtMax = uint64(rep.Resok.Rtmax)
 	case "pathconf":
 		rep := s.NFSPROC3_PATHCONF(nfstypes.PATHCONF3args{Object: fh3(in.Obj)})
 		out.Status = uint32(rep.Status)
